@@ -1,1 +1,6 @@
 import SmtpV.Props.C13
+#print axioms SmtpV.Props.C13.C13_mechanism
+#print axioms SmtpV.Props.C13.C13_one_per_recipient
+#print axioms SmtpV.Props.C13.C13_model_is_spec
+#print axioms SmtpV.Props.C13.C13_contract_agrees
+#print axioms SmtpV.Props.C13.C13_attribution
